@@ -484,6 +484,7 @@ func (f *baseJsFuncObject) vmCall(vm *vm, n int) {
 	vm.prg = f.prg
 	vm.stash = f.stash
 	vm.privEnv = f.privEnv
+	vm.newTarget = nil
 	vm.pc = 0
 	vm.stack[vm.sp-n-1], vm.stack[vm.sp-n-2] = vm.stack[vm.sp-n-2], vm.stack[vm.sp-n-1]
 }
